@@ -299,8 +299,10 @@ theorem natOfBytes_zero32 : natOfBytes zero32 = 0 := by decide
 
 /-! ### SortitionManager cache -/
 
-/-- every stored view sits under the slot of the inputs it was computed for, and those have a uint64 round -/
-def Mgr.Inv (m : Mgr) : Prop := ∀ e, e ∈ m.cache → e.1 = slotOf e.2 ∧ e.2.round < 2 ^ 64
+/-- every stored view sits under the slot of the inputs it was computed for, those have a uint64 round, and it was
+    computed on the branch the chain resolves now -/
+def Mgr.Inv (m : Mgr) : Prop :=
+  ∀ e, e ∈ m.cache → e.1 = slotOf e.2.key ∧ e.2.key.round < 2 ^ 64 ∧ e.2.epoch = m.epoch
 
 theorem slotOf_inj {a b : MKey} (ha : a.round < 2 ^ 64) (hb : b.round < 2 ^ 64) (h : slotOf a = slotOf b) : a = b := by
   unfold slotOf at h
@@ -309,8 +311,14 @@ theorem slotOf_inj {a b : MKey} (ha : a.round < 2 ^ 64) (hb : b.round < 2 ^ 64) 
   rw [Nat.mod_eq_of_lt ha, Nat.mod_eq_of_lt hb] at h1
   cases a; cases b; simp_all
 
+theorem Mgr.query_epoch (m : Mgr) (k : MKey) (st : Bool) : (m.query k st).1.epoch = m.epoch := by
+  unfold Mgr.query
+  cases m.lookup k with
+  | some o => rfl
+  | none => cases st <;> rfl
+
 theorem Mgr.query_spec (m : Mgr) (hinv : m.Inv) (k : MKey) (hk : k.round < 2 ^ 64) (st : Bool) :
-    (m.query k st).2 = k ∧ (m.query k st).1.Inv := by
+    (m.query k st).2 = ⟨k, m.epoch⟩ ∧ (m.query k st).1.Inv := by
   unfold Mgr.query
   cases hl : m.lookup k with
   | some o =>
@@ -326,7 +334,12 @@ theorem Mgr.query_spec (m : Mgr) (hinv : m.Inv) (k : MKey) (hk : k.round < 2 ^ 6
       simp only [decide_eq_true_eq] at hp
       have := hinv e hmem
       subst hl
-      exact slotOf_inj this.2 hk (by rw [← this.1, hp])
+      have hkey : e.2.key = k := slotOf_inj this.2.1 hk (by rw [← this.1, hp])
+      cases he : e.2 with
+      | mk key ep =>
+        rw [he] at hkey this
+        simp only at hkey this
+        rw [hkey, this.2.2]
   | none =>
     simp only []
     refine ⟨trivial, ?_⟩
@@ -337,7 +350,7 @@ theorem Mgr.query_spec (m : Mgr) (hinv : m.Inv) (k : MKey) (hk : k.round < 2 ^ 6
       intro e he
       simp only [List.mem_cons] at he
       rcases he with rfl | he
-      · exact ⟨rfl, hk⟩
+      · exact ⟨rfl, hk, rfl⟩
       · exact hinv e he
 
 theorem Mgr.clear_inv (m : Mgr) (hinv : m.Inv) (r : Nat) : (m.clear r).Inv := by
@@ -347,5 +360,12 @@ theorem Mgr.clear_inv (m : Mgr) (hinv : m.Inv) (r : Nat) : (m.clear r).Inv := by
   · simp only [h, if_false]
     intro e he
     simp at he
+
+/-- a rewind that moves the round leaves an empty cache -/
+theorem Mgr.rewind_inv (m : Mgr) (r : Nat) (h : r ≠ m.round) : (m.rewind r).Inv := by
+  unfold Mgr.rewind Mgr.clear
+  simp only [h, if_false]
+  intro e he
+  simp at he
 
 end YouVerif.C04
